@@ -28,3 +28,205 @@ def table_statuscodes():
         if uri not in expected:
             bad.append('unexpected key %s' % uri)
     return [_result('table[STATUSCODE2EXCEPTION]', bad, len(expected) + len(table))]
+
+
+# ------------------------------------------------------------------------------------------------ C11: call-site inventory
+import ast as _ast
+import os as _os
+
+XML_PARSE_NAMES = {'fromstring', 'XML', 'parse', 'iterparse', 'XMLParser', 'XMLPullParser', 'parseString', 'parse_xml',
+                   'fromstringlist', 'XMLID', 'make_parser', 'ParserCreate', 'XMLTreeBuilder', 'expatreader'}
+HARDENED_PREFIX = ('defusedxml.',)
+UNSAFE_PREFIX = ('xml.etree.', 'xml.dom.', 'xml.sax.', 'xml.parsers.', 'lxml.', 'xmlsec.', 'xml.')
+# the one allow-listed site (DESIGN 4/C11): optional pyXMLSecurity backend, module not installed, cannot be examined
+ALLOWED_SITES = {('saml2_tophat/sigver.py', 'xmlsec.parse_xml')}
+
+
+def _module_files():
+    root = _os.path.join(front.SRC, front.PKG)
+    for dp, dn, fn in _os.walk(root):
+        for f in sorted(fn):
+            if f.endswith('.py'):
+                yield _os.path.join(dp, f)
+
+
+def _aliases(tree):
+    al = {}
+    for n in _ast.walk(tree):
+        if isinstance(n, _ast.Import):
+            for a in n.names:
+                al[a.asname or a.name.split('.')[0]] = a.name if a.asname else a.name.split('.')[0]
+        elif isinstance(n, _ast.ImportFrom) and n.module:
+            for a in n.names:
+                al[a.asname or a.name] = n.module + '.' + a.name
+    return al
+
+
+def _dotted(node):
+    parts = []
+    while isinstance(node, _ast.Attribute):
+        parts.append(node.attr)
+        node = node.value
+    if isinstance(node, _ast.Name):
+        parts.append(node.id)
+        return list(reversed(parts))
+    return None
+
+
+def table_xml_callsites():
+    """C11: every call in the package that can parse XML goes through the hardened parser (defusedxml).  One obligation
+    per call site whose callee name is an XML parsing entry; the inventory is rebuilt from the working tree on every run,
+    so a new call site is a new obligation."""
+    results, n_sites = [], 0
+    bad = []
+    hardened_sites = []
+    for path in _module_files():
+        rel = _os.path.relpath(path, front.SRC)
+        try:
+            tree = _ast.parse(open(path, encoding='utf-8').read(), filename=path)
+        except SyntaxError as e:
+            bad.append('%s: cannot parse (%s)' % (rel, e))
+            continue
+        al = _aliases(tree)
+        methods = set()
+        for n in _ast.walk(tree):
+            if isinstance(n, (_ast.FunctionDef, _ast.AsyncFunctionDef)):
+                methods.add(n.name)
+        for n in _ast.walk(tree):
+            if not isinstance(n, _ast.Call):
+                continue
+            d = _dotted(n.func)
+            if d is None:
+                # call on a computed receiver: x().fromstring(...), parsers[i].parse(...)
+                if isinstance(n.func, _ast.Attribute) and n.func.attr in XML_PARSE_NAMES - {'parse'}:
+                    n_sites += 1
+                    bad.append('%s:%d unresolvable receiver for .%s(...)' % (rel, n.lineno, n.func.attr))
+                continue
+            if d[-1] not in XML_PARSE_NAMES:
+                continue
+            head = al.get(d[0])
+            full = '.'.join(([head] if head else [d[0]]) + d[1:])
+            if head is None and d[0] in ('self', 'cls') and d[-1] in methods:
+                continue        # a method of the package's own class, not a parser entry point
+            if head is None and len(d) == 1 and d[0] in methods:
+                continue        # a function defined in this module
+            if full.startswith(HARDENED_PREFIX):
+                n_sites += 1
+                hardened_sites.append('%s:%d %s' % (rel, n.lineno, full))
+                continue
+            if full.startswith(UNSAFE_PREFIX) or head is None:
+                if (rel, full) in ALLOWED_SITES:
+                    n_sites += 1
+                    continue
+                if head is None and d[-1] == 'parse' and not any(x in ('ElementTree', 'etree', 'minidom', 'sax', 'expat')
+                                                                 for x in d):
+                    continue    # .parse() on a non-XML receiver (urlparse results, argument parsers, own objects)
+                n_sites += 1
+                bad.append('%s:%d %s(...) parses with an unhardened parser' % (rel, n.lineno, full))
+                continue
+            if full.startswith(front.PKG + '.'):
+                continue        # the package's own wrappers are inventoried at their definition
+            if d[-1] == 'parse':
+                continue
+            n_sites += 1
+            bad.append('%s:%d %s(...) unknown parser entry' % (rel, n.lineno, full))
+    results.append({'name': 'callsite[xml-parsers-hardened]', 'ok': not bad, 'cases': n_sites, 'witness': bad[:10],
+                    'hardened_sites': hardened_sites})
+    return results
+
+
+# ------------------------------------------------------------------------------------------------ C12 / C13: schema tables
+SCHEMA_PACKAGES = ['saml2_tophat.saml', 'saml2_tophat.samlp', 'saml2_tophat.md', 'saml2_tophat.xmldsig', 'saml2_tophat.xmlenc',
+                   'saml2_tophat.extension', 'saml2_tophat.schema', 'saml2_tophat.ws', 'saml2_tophat.authn_context',
+                   'saml2_tophat.profile', 'saml2_tophat.entity_category', 'saml2_tophat.attributemaps']
+
+
+def schema_modules():
+    import importlib
+    import pkgutil
+    mods = []
+    for name in SCHEMA_PACKAGES:
+        try:
+            m = importlib.import_module(name)
+        except Exception:
+            continue
+        mods.append(m)
+        if hasattr(m, '__path__'):
+            for info in pkgutil.walk_packages(m.__path__, m.__name__ + '.'):
+                try:
+                    mods.append(importlib.import_module(info.name))
+                except Exception:
+                    pass
+    seen, out = set(), []
+    for m in mods:
+        if m.__name__ not in seen:
+            seen.add(m.__name__)
+            out.append(m)
+    return out
+
+
+def schema_classes():
+    import saml2_tophat
+    out, seen = [], set()
+    for m in schema_modules():
+        for n in sorted(vars(m)):
+            c = vars(m)[n]
+            if isinstance(c, type) and issubclass(c, saml2_tophat.SamlBase) and c.__module__ == m.__name__ and c not in seen:
+                seen.add(c)
+                out.append(c)
+    return out
+
+
+def table_schema_children():
+    """C12: generated c_children / c_child_order / member-name tables of every schema class are well formed"""
+    classes = schema_classes()
+    bad_key, bad_names, bad_order, n1, n2, n3 = [], [], [], 0, 0, 0
+    for c in classes:
+        q = '%s.%s' % (c.__module__, c.__name__)
+        names = ['text', 'extension_elements', 'extension_attributes']
+        for key, (name, klass) in c.c_children.items():
+            n1 += 1
+            member = klass[0] if isinstance(klass, list) else klass
+            if not isinstance(member, type):
+                bad_key.append('%s: child %r has no member class' % (q, name))
+                continue
+            want = '{%s}%s' % (member.c_namespace, member.c_tag)
+            if key != want:
+                bad_key.append('%s: child member %r keyed %r but its class %s serialises as %r' % (q, name, key, member.__name__, want))
+            names.append(name)
+        for key, spec in c.c_attributes.items():
+            names.append(spec[0])
+        n2 += 1
+        dup = sorted(set(x for x in names if names.count(x) > 1))
+        if dup:
+            bad_names.append('%s: member name(s) %s declared twice' % (q, dup))
+        if c.c_child_order:
+            n3 += 1
+            child_names = [v[0] for v in c.c_children.values()]
+            missing = [x for x in child_names if x not in c.c_child_order]
+            strangers = [x for x in c.c_child_order if x not in child_names]
+            if missing or strangers:
+                bad_order.append('%s: c_child_order misses %s / has strangers %s' % (q, missing, strangers))
+    return [_result('table[c_children-key-is-member-tag]', bad_key, n1),
+            _result('table[member-names-unique]', bad_names, n2),
+            _result('table[c_child_order-covers-children]', bad_order, n3)]
+
+
+def table_schema_factories():
+    """C12: ELEMENT_FROM_STRING / ELEMENT_BY_TAG of every schema module map a class's own tag to that class / its parser"""
+    bad, n = [], 0
+    for m in schema_modules():
+        by_tag = getattr(m, 'ELEMENT_BY_TAG', None)
+        from_string = getattr(m, 'ELEMENT_FROM_STRING', None)
+        if by_tag:
+            for tag, c in by_tag.items():
+                n += 1
+                if not isinstance(c, type) or getattr(c, 'c_tag', None) != tag:
+                    bad.append('%s.ELEMENT_BY_TAG[%r] is %r' % (m.__name__, tag, c))
+        if from_string:
+            for tag, fn in from_string.items():
+                n += 1
+                cands = [c for c in vars(m).values() if isinstance(c, type) and getattr(c, 'c_tag', None) == tag]
+                if not callable(fn) or not cands:
+                    bad.append('%s.ELEMENT_FROM_STRING[%r]: no class with that tag / not callable' % (m.__name__, tag))
+    return [_result('table[element-factories]', bad, n)]
